@@ -89,7 +89,7 @@ impl OneToManyDijkstra {
                 if self.queue.contains(v) && self.queue.weight(v) > new_distance {
                     debug!("[decrease] node: {v}, new weight: {new_distance}, new parent: {u}");
                     // if lower distance found, update distance and its parent
-                    self.queue.decrease_key_and_update_data(v, new_distance, v);
+                    self.queue.decrease_key_and_update_data(v, new_distance, u);
                 }
             }
         }
